@@ -30,8 +30,9 @@ def rawSnoc : RawList → Raw → RawList
   | .cons x xs, e => .cons x (rawSnoc xs e)
 
 inductive Renders : Nat → Raw → List Tok → Prop
-  /-- every level includes the next tighter one -/
-  | up {k e ts} : k < 9 → Renders (k + 1) e ts → Renders k e ts
+  /-- every level includes the next tighter one; at the start of a logic operand `not`, `forall` and `exists` are the keywords
+      (terminal priority), so an atomic condition standing there does not begin with one of them -/
+  | up {k e ts} : k < 9 → (k = 3 → ∀ t ts', ts = t :: ts' → isLogicKw t = false) → Renders (k + 1) e ts → Renders k e ts
   /-- left-recursive binary levels: `x OP y` with `x` of the same level and `y` of the next -/
   | binL {k a b ta tb} (t : Tok) : isLoopLevel k = true → opTest k t = true →
       Renders k a ta → Renders (k + 1) b tb → Renders k (.bin t.text a b) (ta ++ t :: tb)
@@ -52,7 +53,7 @@ inductive Renders : Nat → Raw → List Tok → Prop
   | const (t : Tok) (v : LitVal) : t.kind = .word → t.afterWord = false → numberConstant t.text = some v →
       Renders 9 (.lit t.text v) [t]
   /-- `function_call: CNAME "(" expr ")"` -/
-  | call {a ta} (f o c : Tok) : f.kind = .word → isName f.text = true → isSym o "(" = true → isSym c ")" = true →
+  | call {a ta} (f o c : Tok) : f.kind = .word → isNameTok f = true → isSym o "(" = true → isSym c ")" = true →
       Renders 5 a ta → Renders 9 (.call f.text (.cons a .nil)) (f :: o :: (ta ++ [c]))
   /-- `range_literal` -/
   | range {lo hi tl th} (o kto c : Tok) : (isSym o "[" || isSym o "![") = true → isKw kto "to" = true →
@@ -65,7 +66,7 @@ inductive Renders : Nat → Raw → List Tok → Prop
   | set {es ts} (o c : Tok) : isSym o "{" = true → isSym c "}" = true → Renders 11 (.set es) ts → Renders 9 (.set es) (o :: (ts ++ [c]))
   /-- references: `@x` or an own field, then `.name` and `[expr]` accessors (level 10), closed as an atomic value -/
   | var (t : Tok) : t.kind = .var → Renders 10 (.var t.text) [t]
-  | own (t : Tok) : t.kind = .word → isName t.text = true → Renders 10 (.field .this t.text) [t]
+  | own (t : Tok) : t.kind = .word → isNameTok t = true → Renders 10 (.field .this t.text) [t]
   | field {m tm} (d n : Tok) : isSym d "." = true → n.kind = .word → isCName n.text = true →
       Renders 10 m tm → Renders 10 (.field m n.text) (tm ++ [d, n])
   | index {a ta i ti} (o c : Tok) : isSym o "[" = true → isSym c "]" = true →
